@@ -106,11 +106,13 @@ func (f Field) WireName() string {
 }
 
 type Struct struct {
-	Name    string  `json:"name"`
-	Pkg     string  `json:"pkg"`
-	Fields  []Field `json:"fields"`
-	Descr   string  `json:"descr,omitempty"`
-	IsError bool    `json:"is_error,omitempty"` // embeds `error`
+	// ErrorLast embeds `error` after the fields instead of before them (only with IsError)
+	ErrorLast bool    `json:"error_last,omitempty"`
+	Name      string  `json:"name"`
+	Pkg       string  `json:"pkg"`
+	Fields    []Field `json:"fields"`
+	Descr     string  `json:"descr,omitempty"`
+	IsError   bool    `json:"is_error,omitempty"` // embeds `error`
 }
 
 type EnumConst struct {
@@ -190,6 +192,8 @@ type ErrResp struct {
 }
 
 type Method struct {
+	// LeadLines are comment lines written before anything else of the doc block ("//", "// ")
+	LeadLines []string `json:"lead_lines,omitempty"`
 	// HiddenArg renders @Hidden(<arg>) instead of the bare form
 	HiddenArg string `json:"hidden_arg,omitempty"`
 	// GroupParams renders consecutive parameters of one type as a single grouped field (a, b, c string)
@@ -222,6 +226,10 @@ type Method struct {
 func (m Method) IsEndpoint() bool { return m.Verb != "" && !m.NoRouteAnn && m.Route != "" }
 
 type Controller struct {
+	// Grouped declares the controller inside a `type ( ... )` block that has a doc comment of its own
+	Grouped bool `json:"grouped,omitempty"`
+	// LeadFields are field declarations placed before the embedded runtime.GleeceController ("mu sync.Mutex")
+	LeadFields []string   `json:"lead_fields,omitempty"`
 	Name       string     `json:"name"`
 	Pkg        string     `json:"pkg"`
 	Files      []string   `json:"files"`
